@@ -57,6 +57,11 @@ def requests(tier, rng):
     for p0 in (zero, one, last, [1] * 256, [Q - 1] * 256):
         L.append("poly::ntt " + fmt(p0))
         L.append("poly::invntt_tomont " + fmt(p0))
+    # the slice-level transforms on windows at every word offset 1..7 of a larger buffer (differently aligned memory)
+    for off in range(1, 8):
+        p = [rng.randrange(-Q + 1, Q) for _ in range(256)]
+        L.append("@impl ntt::ntt_off %d %s" % (off, fmt(p)))
+        L.append("@impl ntt::invntt_tomont_off %d %s" % (off, fmt(p)))
     # power-of-two grid: every pair (+-2^i + d, +-2^j + e), d, e in {-1, 0, 1}, inside the 9q operand bound --
     # where word-size shortcuts and sign handling change behaviour
     vals = sorted({sg * (2**i) + d for i in range(0, 27) for d in (-1, 0, 1) for sg in (1, -1) if abs(sg * (2**i) + d) < 9 * Q} | {9 * Q - 1, -(9 * Q - 1), Q, -Q, Q - 1, 1 - Q})
@@ -105,8 +110,11 @@ def _v(ans):
 
 
 def violated(line, checked, release):
-    t = line.split()
+    t = line.replace("@impl ", "").split()
     fn = t[0].split("::")[1]
+    if fn in ("ntt_off", "invntt_tomont_off"):
+        # the transform applied to a 256-word window that starts `off` words into a larger buffer: same function
+        fn = fn[:-4]; t = [t[0]] + t[2:]
     for prof, ans in (("checked", checked), ("wrapping", release)):
         r = _v(ans)
         if fn == "ntt":
@@ -146,4 +154,4 @@ def violated(line, checked, release):
 
 
 def nontrivial(line, model_ans):
-    return model_ans.startswith("ok") and any(c not in "0,- " for c in line.split(" ", 1)[1])
+    return (model_ans.startswith("ok") or model_ans == "@impl") and any(c not in "0,- " for c in line.split(" ", 1)[1])
